@@ -60,6 +60,13 @@ CHECKS = {
    design_ref="DESIGN.md section 6 (C16)",
    note="Specificity = multipledispatch.conflict.supercedes; matching = issubclass on wrapped types. Synthesised tuples are generated for interpretation registries (patterns over a term's arguments), not for op dispatchers on raw arrays, where numpy scalar types inherit from both float and numpy.generic.",
    technique="deterministic simulation: monitored dispatch under seeded cache-drop/GC/late-registration histories; cross-world and permuted-registration agreement; order axioms on reached types"),
+ "C20": dict(
+   engine="immut",
+   category="exploration",
+   text="Sessions (fresh fork each) run a generated program interleaved with entries of a 25-entry catalogue of public API calls (optimizer, adjoint, samplers, Gaussian algebra, sum_product family, conversions, Scatter/Stack/Cat/Lambda/Independent, compile, views and slices) under randomly chosen interpretations and faults (exception at the n-th internal call, collection, one declined rule firing, rules disabled on non-ground operands). Two detector configurations run as separate batches: snapshot - before each step every user array and every funsor the session holds is fingerprinted (class, inputs, output, identities of _ast_values, bytes of every reachable array) and re-verified after the step, after every fault and at the end of the run, which catches late writes through views; tripwire - every user-supplied array is read-only, so the first write through an operand or a view of it raises at the offending funsor line, which is reported with its file:line.",
+   design_ref="DESIGN.md section 6 (C20)",
+   note="lazy_property caches and profiling counters are not part of the snapshot (the property names inputs, output, data). Writes into arrays funsor allocated itself are legal and not observed.",
+   technique="deterministic simulation: seeded operation/fault histories with before/after snapshots of every held term and array, plus read-only tripwire arrays"),
  "C17": dict(
    engine="ctxstack",
    category="fault_enumeration",
@@ -102,6 +109,7 @@ def main():
             {"name": "intern", "path": "checks/c07.py", "serves_properties": ["C07"], "kind_free_text": "history simulator over intern tables with scheduled GC, id recycling, pickle; reference map"},
             {"name": "rng", "path": "checks/c14.py", "serves_properties": ["C14"], "kind_free_text": "random-stream seam with boundary-draw injection; dense reference model for Gaussian samples"},
             {"name": "dispatch", "path": "checks/c16.py", "serves_properties": ["C16"], "kind_free_text": "dispatch monitor + history/world/registration-order independence + order axioms"},
+            {"name": "immut", "path": "checks/c20.py", "serves_properties": ["C20"], "kind_free_text": "snapshot and read-only-tripwire detectors over program + API-catalogue sessions with injected faults"},
             {"name": "ctxstack", "path": "checks/c17.py", "serves_properties": ["C17"], "kind_free_text": "stack model + exception injection at internal calls (sys.monitoring)"},
         ],
         "checks": checks,
